@@ -365,4 +365,18 @@ theorem typed_listing_roundtrip (finalLF : Bool) (ps : List (Nat × Str))
 example : (convert (listingText false [(10, Tape.str "fori=1to3"), (20, Tape.str "print\"a b\";i"), (65535, Tape.str "nexti")])).isSome = true := by
   decide +kernel
 
+
+/-- **C14, the same listing with CR LF line ends** (written on another system): text-mode reading turns it into the LF listing
+    (`universalNewlines_crlf_listing`), so the converter accepts it and it decodes back to the same numbers and texts -/
+theorem typed_listing_crlf_roundtrip (ps : List (Nat × Str))
+    (hn : ∀ p ∈ ps, 0 < p.1 ∧ p.1 < 65536)
+    (hch : ∀ p ∈ ps, ∀ c ∈ p.2, c ≠ 0 ∧ c < 128 ∧ c ≠ 10 ∧ c ≠ 13) :
+    ∃ file, convert (listingTextCRLF ps) = some file ∧
+      (Gen.Tokens.programBase + file.length < 65536 →
+        BasicRef.decodeProgram file = some (ps.map (fun p => (p.1, specUpper false p.2)))) := by
+  rw [convert_crlf_listing ps (fun p hp c hc => ⟨(hch p hp c hc).2.2.1, (hch p hp c hc).2.2.2⟩)]
+  exact typed_listing_roundtrip true ps hn hch
+
+example : (convert (listingTextCRLF [(10, Tape.str "print 1"), (20, Tape.str "end")])) = (convert (Tape.str "10 print 1\r\n20 end\r\n")) := by decide +kernel
+
 end Moto.C14
